@@ -297,8 +297,22 @@ impl<'tcx> Cx<'tcx> {
         if let Some(v) = val {
             if let ty::Adt(ad, _) = ty.kind() {
                 if ad.did().is_local() && (ad.is_enum() || ad.is_struct()) {
-                    if let Some(t) = self.const_tree(v, ty, 0) {
+                    if let Some(t) = self.const_tree(env, v, ty, 0) {
                         o.push(("tree", t));
+                    }
+                }
+            }
+            // `&CONST` of a crate-local ADT type: the tree of the pointee
+            if let ty::Ref(_, inner, _) = ty.kind() {
+                if let ty::Adt(ad, _) = inner.kind() {
+                    if ad.did().is_local() && (ad.is_enum() || ad.is_struct()) {
+                        if let ConstValue::Scalar(Scalar::Ptr(ptr, _)) = v {
+                            let (prov, off) = ptr.into_raw_parts();
+                            let pointee = ConstValue::Indirect { alloc_id: prov.alloc_id(), offset: off };
+                            if let Some(t) = self.const_tree(env, pointee, *inner, 0) {
+                                o.push(("tree_ref", t));
+                            }
+                        }
                     }
                 }
             }
@@ -357,7 +371,7 @@ impl<'tcx> Cx<'tcx> {
     }
 
     /// value of a constant of a crate-local ADT type as a tree {adt, variant, fields} with scalar leaves
-    fn const_tree(&mut self, v: ConstValue, ty: Ty<'tcx>, depth: usize) -> Option<J> {
+    fn const_tree(&mut self, env: TypingEnv<'tcx>, v: ConstValue, ty: Ty<'tcx>, depth: usize) -> Option<J> {
         let tcx = self.tcx;
         if depth > 6 {
             return None;
@@ -375,13 +389,53 @@ impl<'tcx> Cx<'tcx> {
                 }
                 None
             }
+            ty::FnPtr(..) => {
+                // a function pointer stored in a constant (a table of operations): which function it is
+                if let ConstValue::Scalar(Scalar::Ptr(ptr, _)) = v {
+                    let (prov, _off) = ptr.into_raw_parts();
+                    if let rustc_middle::mir::interpret::GlobalAlloc::Function { instance } = tcx.global_alloc(prov.alloc_id()) {
+                        return Some(J::obj(vec![("fnref", self.fn_ref(env, instance.def_id(), instance.args))]));
+                    }
+                }
+                None
+            }
+            ty::FnDef(d, args) => Some(J::obj(vec![("fnref", self.fn_ref(env, *d, args))])),
+            ty::Ref(_, inner, _) if matches!(inner.kind(), ty::Str) => {
+                if let ConstValue::Slice { alloc_id, meta } = v {
+                    if let Some(b) = self.read_bytes(alloc_id, 0, meta as usize) {
+                        return Some(J::obj(vec![("data", Self::bytes_json(&b))]));
+                    }
+                }
+                // a fat pointer kept in the memory of an enclosing constant: (pointer with provenance, length)
+                if let ConstValue::Indirect { alloc_id, offset } = v {
+                    if let Some(GlobalAlloc::Memory(a)) = tcx.try_get_global_alloc(alloc_id) {
+                        let a = a.inner();
+                        let ps = tcx.data_layout.pointer_size().bytes() as usize;
+                        let off = offset.bytes() as usize;
+                        if off + 2 * ps <= a.len() && ps == 8 {
+                            if let Some((_, prov)) = a.provenance().ptrs().iter().find(|(o, _)| o.bytes() as usize == off) {
+                                let raw = a.inspect_with_uninit_and_ptr_outside_interpreter(off..off + 2 * ps);
+                                let inner_off = u64::from_le_bytes(raw[0..8].try_into().ok()?) as usize;
+                                let len = u64::from_le_bytes(raw[8..16].try_into().ok()?) as usize;
+                                if let Some(b) = self.read_bytes(prov.alloc_id(), inner_off, len) {
+                                    return Some(J::obj(vec![("data", Self::bytes_json(&b))]));
+                                }
+                            }
+                        }
+                    }
+                }
+                None
+            }
             ty::Adt(ad, _) if ad.is_enum() || ad.is_struct() => {
                 let d = tcx.try_destructure_mir_constant_for_user_output(v, ty)?;
                 let vidx = d.variant.unwrap_or(rustc_abi::FIRST_VARIANT);
                 let vdef = ad.variant(vidx);
                 let mut fields = vec![];
                 for (fv, fty) in d.fields.iter() {
-                    fields.push(self.const_tree(*fv, *fty, depth + 1)?);
+                    // a leaf that cannot be read (a fat pointer kept in memory ...) stays opaque; the rest of the tree is still known
+                    let t = self.const_tree(env, *fv, *fty, depth + 1)
+                        .unwrap_or_else(|| J::obj(vec![("opaque", J::s(format!("{}", fty)))]));
+                    fields.push(t);
                 }
                 Some(J::obj(vec![
                     ("adt", J::s(self.path(ad.did()))),
